@@ -559,6 +559,13 @@ load_basic(Archive &ar, RCP<const T> &,
 {
     RCP<const Number> num, den;
     ar(num, den);
+    if (is_a<RealDouble>(*num) and is_a<RealDouble>(*den)) {
+        // re + I*im in floating point loses the sign of a zero real part and
+        // turns an infinite imaginary part into a NaN real part
+        return complex_double(
+            std::complex<double>(down_cast<const RealDouble &>(*num).i,
+                                 down_cast<const RealDouble &>(*den).i));
+    }
     return addnum(num, mulnum(I, den));
 }
 template <class Archive>
